@@ -3,9 +3,9 @@
 # usage: tools/miri.sh <PROP> <tier> <seed> inproc <part>... | sim
 # exit 0 clean, 1 Miri reported UB / a monitor fired, 2 inconclusive (build trouble, timeout)
 prop=$1; tier=$2; seed=$3; mode=$4; shift 4
-cd /verif/harness || exit 2
+ROOT="$(cd "$(dirname "$0")/.." && pwd)"; cd "$ROOT/harness" || exit 2
 export CARGO_NET_OFFLINE=true MIRIFLAGS="-Zmiri-disable-isolation"
-out=/verif/harness/target/miri-out; mkdir -p $out
+out=$ROOT/harness/target/miri-out; mkdir -p $out
 run() { # name, args...
   local name=$1; shift
   timeout 2400 cargo +nightly miri run --quiet --target-dir target/miri -- "$@" --seed "$seed" --out $out/$prop-$name.json > $out/$prop-$name.log 2>&1
